@@ -672,6 +672,25 @@ impl<F: Fam> Ctx<F> {
                 }
                 self.judge(s + 2, &obs, &Facts::of(Kind::Reserve))?;
             }
+            5 => {
+                let huge = arg >= (1usize << 61);
+                let add = if huge { arg } else { arg.min(1 << 17) };
+                let pre_len = self.sets[s].set.len();
+                let (r, obs) = self.observe_set(s, &[C10], move |set| set.try_reserve(add).is_ok())?;
+                if huge {
+                    if r {
+                        fail!(self, [C10], "try-reserve-huge-ok", "set: try_reserve({}) returned Ok(()) with capacity() = {}", add, obs.post.cap);
+                    }
+                    if obs.post.len != pre_len {
+                        fail!(self, [C10], "try-reserve-err-changed", "set: a failed try_reserve changed len() from {} to {}", pre_len, obs.post.len);
+                    }
+                } else {
+                    if !r || obs.post.cap < obs.post.len + add {
+                        fail!(self, [C10], "reserve-postcondition", "set: try_reserve({}) ok = {}, capacity() = {} , len() + n = {}", add, r, obs.post.cap, obs.post.len + add);
+                    }
+                    self.judge(s + 2, &obs, &Facts::of(Kind::Reserve))?;
+                }
+            }
             2 | 3 => {
                 let pre = self.st(s + 2);
                 let (_, obs) = self.observe_set(s, &[C10], move |set| if which == 2 { set.shrink_to(arg) } else { set.shrink_to_fit() })?;
